@@ -29,6 +29,8 @@ func runC08(w *World, r *Report) {
 	r.Rule("C08-R6", "recorded times are only added", "the three info tables of ChannelWriter are accessed only through Load / LoadWithDefault / Store; drop keys are stored only by the drop operations and the constructor, create keys only after a successful probe: no recorded create or drop time is ever deleted or overwritten from elsewhere", 12)
 	r.Rule("C08-R7", "the start-up snapshot is loaded into the table of its own level", "in NewChannelWriter the entries of droppedObjs[database|collection|partition] are stored into dbInfos / collectionInfos / partitionInfos respectively", 3)
 	c08SnapshotTables(w, r)
+	r.Rule("C08-R8", "a failed multi-member operation is forgiven only if every member is gone", "in the re-check loops that follow a failed downstream call (load/release partitions, flush) no success return is taken inside the loop: one dropped member does not excuse the failure for the live ones", 3)
+	c08AllMembers(w, r)
 	// the re-check after a failed call looks the object up under the same SOURCE names as the check before it
 	r.importRules(runC09, "C08-", map[string]bool{"C09-R2": true})
 	c08R6(w, r)
@@ -329,6 +331,38 @@ func runC08(w *World, r *Report) {
 				ok = false
 			}
 		})
+		// nothing can fail between the downstream drop and the recording of its time: from the success side of the
+		// downstream call every path to any return passes the store
+		if dc, isCall := dcall.(*ssa.Call); isCall {
+			for _, b := range fn.Blocks {
+				v, _, isNilB, isT := errNilTest(b)
+				if !isT || b != dc.Block() {
+					continue
+				}
+				fromCall := false
+				for _, x := range backSlice(v, SliceOpts{MaxDepth: 4}) {
+					if x == ssa.Value(dc) {
+						fromCall = true
+					}
+				}
+				if !fromCall {
+					continue
+				}
+				if isNilB == store.Block() {
+					continue
+				}
+				reach := blockReach(isNilB, map[*ssa.BasicBlock]bool{store.Block(): true})
+				reach[isNilB] = true
+				for rb := range reach {
+					if rb == store.Block() {
+						continue
+					}
+					if _, isRet := rb.Instrs[len(rb.Instrs)-1].(*ssa.Return); isRet {
+						ok = false
+					}
+				}
+			}
+		}
 		// key built from source names: args of the key function must not derive from mapping
 		kc := store.Call.Args[len(store.Call.Args)-2].(*ssa.Extract).Tuple.(*ssa.Call)
 		for _, a := range kc.Call.Args {
@@ -336,7 +370,7 @@ func runC08(w *World, r *Report) {
 				ok = false
 			}
 		}
-		r.Check(ok, "C08-R4", cons, store.Pos(), "drop time stored under the source-name drop key before every success return", "a success return is reachable without recording the drop time, or the key is built from mapped names")
+		r.Check(ok, "C08-R4", cons, store.Pos(), "drop time stored under the source-name drop key before every success return", "a return is reachable after the downstream drop succeeded without the drop time having been recorded (a later step can fail first), or the key is built from mapped names")
 	}
 
 	// ---------- R5
@@ -662,5 +696,70 @@ func c08SnapshotTables(w *World, r *Report) {
 	})
 	if n < 3 {
 		r.Fail("C08-R7", "NewChannelWriter | snapshot load census", fn.Pos(), fmt.Sprintf("only %d of the 3 snapshot levels are loaded", n))
+	}
+}
+
+// c08AllMembers: C08-R8.
+func c08AllMembers(w *World, r *Report) {
+	n := 0
+	for _, name := range []string{"loadPartitions", "releasePartitions", "flush"} {
+		fn := w.Func(pkgWriter, "ChannelWriter", name)
+		cons := "(*ChannelWriter)." + name + " | re-check loop after a failed call"
+		if fn == nil {
+			r.Undecided("C08-R8", cons, 0, "anchor not found")
+			continue
+		}
+		found := false
+		bad := token.NoPos
+		for _, b := range fn.Blocks {
+			v, nn, _, ok := errNilTest(b)
+			if !ok {
+				continue
+			}
+			isHandler := false
+			for _, x := range backSlice(v, SliceOpts{MaxDepth: 4}) {
+				if c, isC := x.(*ssa.Call); isC && c.Call.IsInvoke() && strings.HasSuffix(w.accessPath(c.Call.Value), ".dataHandler") {
+					isHandler = true
+				}
+			}
+			if !isHandler {
+				continue
+			}
+			// WaitObjReady calls inside a loop in the failure region
+			for _, rb := range fn.Blocks {
+				if !(rb == nn || nn.Dominates(rb)) {
+					continue
+				}
+				for _, in := range rb.Instrs {
+					c, isC := in.(*ssa.Call)
+					if !isC || callSym(c.Common()).name != "WaitObjReady" {
+						continue
+					}
+					h := loopHeaderOf(rb)
+					if h == nil || !(nn.Dominates(h) || h == nn) {
+						continue
+					}
+					found = true
+					// success returns taken from inside the loop: dominated by a block of the loop body
+					for _, lb := range fn.Blocks {
+						ret, isR := lb.Instrs[len(lb.Instrs)-1].(*ssa.Return)
+						if !isR || len(ret.Results) != 1 || !isNilConst(returnedValue(ret, 0)) {
+							continue
+						}
+						for _, body := range fn.Blocks {
+							if body != h && loopHeaderOf(body) == h && (body == lb || body.Dominates(lb)) {
+								bad = ret.Pos()
+							}
+						}
+					}
+				}
+			}
+		}
+		if !found {
+			r.Undecided("C08-R8", cons, fn.Pos(), "no re-check loop found after the downstream call")
+			continue
+		}
+		n++
+		r.Check(bad == token.NoPos, "C08-R8", cons, fn.Pos(), "success only after the loop has seen every member", "the loop returns success as soon as one member is found dropped: a failed operation on several members is reported as done although the live ones were not operated on")
 	}
 }
